@@ -82,9 +82,61 @@ def a_pairing(ck: Check) -> None:
           "the lists that record found attractors are filled on the same iterations", key="seeds and sets aligned")
 
 
+def d_fixpoint(ck: Check) -> None:
+    """The closure returned by symbolic_attractor_test is a fixed point: each flag-controlled loop (`while not F`) is entered,
+    and a round that enlarged one of the state sets lowers the flag again before it ends. (C13 checks the converse -- the flag is
+    lowered only with progress -- for termination; this is the completeness side: stopping early returns a set that is not
+    closed, so a candidate that reaches the avoid set passes as an attractor and attractor sets miss states.)"""
+    from .c13 import _assigns
+    fm = ck.prog.fm(SYM, "symbolic_attractor_test")
+    f = fm.f
+    loops = [l for l in own_walk(f.node) if isinstance(l, ast.While) and isinstance(l.test, ast.UnaryOp) and isinstance(l.test.op, ast.Not)
+             and isinstance(l.test.operand, ast.Name)]
+    if len(loops) < 2:
+        raise AnalysisError("anchor vanished: flag-controlled fixpoint loops of symbolic_attractor_test")
+    for lp in loops:
+        F = lp.test.operand.id
+        hdr = fm.cfg.loop_header[lp]
+        ids = fm.cfg.loop_nodes[lp]
+        probs = []
+        # entered: every definition of the flag that reaches the header from outside the loop is False
+        outside = [d for d in fm.cfg.reaching_defs(F, hdr) if d.id not in ids]
+        if not outside or not all(d.kind == "stmt" and isinstance(d.ast, ast.Assign) and is_false(d.ast.value) for d in outside):
+            probs.append(f"`{F}` is not False when the loop is first reached: the loop body may never run and the set is returned as it is")
+        downs = [n for n in _assigns(fm, lp, F) if n.kind == "stmt" and isinstance(n.ast, ast.Assign) and is_false(n.ast.value)]
+        ups = [n for n in _assigns(fm, lp, F) if n not in downs]
+        # growth statements of this loop: X = X.union(..) on a set that lives across rounds
+        grows = []
+        for i in ids:
+            n = fm.cfg.nodes[i]
+            if n.kind == "stmt" and isinstance(n.ast, ast.Assign) and len(n.ast.targets) == 1 and isinstance(n.ast.targets[0], ast.Name):
+                X = n.ast.targets[0].id
+                v = fm.deref(n.ast.value, n) if isinstance(n.ast.value, ast.Name) else n.ast.value
+                if isinstance(v, ast.Call) and callee_name(v) == "union" and isinstance(v.func, ast.Attribute) and text(v.func.value) == X:
+                    grows.append(n)
+        if not grows:
+            raise AnalysisError(f"anchor vanished: growth statements in the `while not {F}` loop")
+        for g in grows:
+            lowered_before = False
+            for d in downs:
+                if fm.cfg.dominates(d, g):
+                    between = fm.cfg.reach_avoiding(d, [hdr]) & fm.cfg.can_reach_avoiding(g, [hdr])
+                    if not any(u.id in between for u in ups):
+                        lowered_before = True
+            if not lowered_before and hdr.id in fm.cfg.reach_avoiding(g, downs):
+                probs.append(f"line {g.ast.lineno}: `{text(g.ast)[:50]}` enlarges a set, and the round can end with `{F}` still raised: "
+                             f"the loop stops although the set has just changed")
+        for d in downs:
+            if any(u.id in fm.cfg.reach_avoiding(d, [hdr]) for u in ups):
+                probs.append(f"line {d.ast.lineno}: `{F}` is raised again after it was lowered in the same round")
+        ck.ob("D", fm, lp, not probs, "; ".join(sorted(set(probs))) if probs else
+              f"`while not {F}`: entered, and every round that enlarges a set runs another round", key=f"fixpoint reached: {F}")
+
+
 def run(ck: Check) -> None:
     a(ck)
     a_pairing(ck)
+    d_fixpoint(ck)
     b(ck)
     c(ck)
     d(ck)
